@@ -49,7 +49,7 @@ RULE = ("every vertex sequence of length n over {0..K}^2 (tier bound), open and 
         "crossing loop of the kernel decides it. Sequences are partitioned into orbits under rotation and "
         "reversal (canonical = lexicographic minimum), each orbit is owned by one unit and each member is "
         "executed once, so cases are distinct by construction. SIZE LADDERS: one unit per (family in staircase / "
-        "comb / saw, n in the ladder 7..1025 [thorough ..10001]) running 3 vertex-list variants x open/closed x the "
+        "comb / saw, n in the ladder 7..1025 [thorough ..10001], plus every n in 7..130 with one family in rotation [thorough: 7..300, all families] and every point count 1..130 [300]) running 3 vertex-list variants x open/closed x the "
         "transforms over the anchor-product quarter lattice; units of 6 point counts per polygon for the point-count "
         "ladder; units of 2 growing grids for cells_inside_polygon. LAYOUTS: 14 containers / dtypes / stride patterns "
         "for the points and for the polygon, on every ladder polygon and the first vertex list of each exhaustive unit "
@@ -114,7 +114,19 @@ def units(tier, seed):
     for family in FAMILIES:
         for n in ladder(tier):
             us.append({"kind": "ladder", "family": family, "n": n, "seed": seed})
+    # dense ranges: every vertex count 7..130 (one family per count in rotation; 7..300 all families in thorough)
+    dmax = 130 if tier == "quick" else 300
+    for n in range(7, dmax + 1):
+        if n in ladder(tier):
+            continue
+        for family in ([FAMILIES[(n + seed) % 3]] if tier == "quick" else FAMILIES):
+            us.append({"kind": "ladder", "family": family, "n": n, "seed": seed, "dense": True})
     lad = ladder(tier)
+    # every point count 1..130 (300 thorough) on one polygon per count in rotation
+    dense_pts = [k for k in range(1, dmax + 1) if k not in lad]
+    for k in range(0, len(dense_pts), 12):
+        name, n = NPOINTS_POLYGONS[(k // 12 + seed) % len(NPOINTS_POLYGONS)]
+        us.append({"kind": "npoints", "polygon": name, "n": n, "sizes": dense_pts[k:k + 12], "seed": seed})
     for name, n in NPOINTS_POLYGONS:
         for k in range(0, len(lad), 6):
             us.append({"kind": "npoints", "polygon": name, "n": n, "sizes": lad[k:k + 6], "seed": seed})
